@@ -161,7 +161,7 @@ func Run(cfg core.Config, scope core.Scope, exempt map[string]string) *core.Resu
 				res.Findings = kept
 				for ek := range exempt {
 					if (ek == fd.Name.Name || strings.HasPrefix(ek, fd.Name.Name+".")) && !used[ek] {
-						res.Brokenf("WORKSIZE: stale exemption %s (nothing to suppress)", ek)
+						res.Stale("WORKSIZE: stale exemption %s (nothing to suppress)", ek)
 					}
 				}
 			}
